@@ -389,7 +389,9 @@ def classify(uf, root_res, nl_res, can_res):
                     obs.append(Obligation(uf.unit, "exec-mirror", it.name, "undecided", rendered, exec_props(it.info)))
                 elif "precondition" in msg:
                     obs.append(Obligation(uf.unit, "definedness", it.name, "failed", rendered, exec_props(it.info), "a partial operation is evaluated outside its domain"))
-                    obs[-1].gated = bool(it.info.get("hinted"))
+                    # whether Verus can show a denominator non-zero depends on how the body writes it (default mode has no
+                    # non-linear reasoning; ghost hints supply it for the shapes the crate uses): gated on a replayed input
+                    obs[-1].gated = True
                 elif "overflow" in msg:
                     obs.append(Obligation(uf.unit, "overflow", it.name, "failed", rendered, exec_props(it.info), "integer arithmetic may overflow"))
                 else:
